@@ -22,7 +22,7 @@ RULE = ("(a) histories of 2-8 connections opening, calling and closing against r
         "non-trivial = more than one connection or thread involved")
 ASSUMPTIONS = ["a slow constructor (sleep) is a legitimate application behaviour that widens the race window without touching Pyro",
                "scheduling points = source lines of Daemon._getInstance (and its nested createInstance) only"]
-REQUIRED_REACH = ["single_ok", "session_ok", "percall_ok", "creator_counts_ok", "failing_creator_ok", "racing_first_calls", "session_instances_dropped", "schedules_explored", "multi_daemon_ok", "oneway_first_requests", "registered_class_inherits_behavior"]
+REQUIRED_REACH = ["single_ok", "session_ok", "percall_ok", "creator_counts_ok", "failing_creator_ok", "racing_first_calls", "session_instances_dropped", "schedules_explored", "multi_daemon_ok", "oneway_first_requests", "registered_class_inherits_behavior", "registration_changes_ok"]
 SHARD_TIMEOUT = {"quick": 240, "thorough": 2800}
 SHAPES = ["truthy", "falsy_len", "falsy_bool", "eq_always"]
 CREATORS = ["none", "ok", "raises", "raises_type", "wrongtype", "subclass"]     # subclass: the creator returns an instance of a subclass (allowed by the daemon's isinstance check)
@@ -285,6 +285,51 @@ def socket_case(fx, mode, shape, creator, nconn, ncalls, rec, r, sername, race, 
         fx.daemon.unregister(objid)
 
 
+def registration_change_case(fx, shape, creator, rec, r, sername):
+    """'single': one instance per daemon, whatever happens to the class's registrations meanwhile - registered under two ids, one of them
+    unregistered while a connection is open, all of them unregistered and the class registered again"""
+    P = fx.P
+    cls, book = make_class(P, "single", shape, creator, 0.0, inherit=r.random() < 0.3)
+    n = r.randrange(10 ** 9)
+    ida, idb, idc = "rc%da" % n, "rc%db" % n, "rc%dc" % n
+    pay = {"regchange": True, "shape": shape, "creator": creator, "serializer": sername, "servertype": fx.servertype}
+    rec.case(("regchange", shape, creator, sername, fx.servertype), nontrivial=True, sample=pay if rec.evaluations % 40 == 9 else None)
+    served = []
+    try:
+        fx.daemon.register(cls, ida)
+        fx.daemon.register(cls, idb, force=True)
+        with fx.proxy(ida, serializer=sername, timeout=15.0) as pa, fx.proxy(idb, serializer=sername, timeout=15.0) as pb:
+            served.append(("a", pa.who()[0]))
+            served.append(("b", pb.who()[0]))
+            fx.daemon.unregister(ida)
+            served.append(("b, after a was unregistered", pb.who()[0]))
+            with fx.proxy(idb, serializer=sername, timeout=15.0) as pb2:
+                served.append(("b, new connection", pb2.who()[0]))
+        fx.daemon.unregister(idb)
+        fx.daemon.register(cls, idc)
+        with fx.proxy(idc, serializer=sername, timeout=15.0) as pc:
+            served.append(("c, registered after a and b were gone", pc.who()[0]))
+    except Exception as x:
+        rec.inconc("registration-change history failed in the harness: %r" % (x,))
+        return
+    finally:
+        for i in (ida, idb, idc):
+            try:
+                fx.daemon.unregister(i)
+            except Exception:
+                pass
+    with book.lock:
+        created, ccalls = list(book.created), book.creator_calls
+    if len({sn for _, sn in served}) != 1 or len(created) != 1:
+        rec.violation("single-mode-multiple-instances:registration-change", "single/%s/%s: one daemon, calls were served by %r; %d instance(s) constructed" % (
+            shape, creator, served, len(created)), pay)
+        return
+    if creator in ("ok", "subclass") and ccalls != 1:
+        rec.violation("creator-call-count", "single/%s: creator called %d times for one instance (registrations changed meanwhile)" % (shape, ccalls), pay)
+        return
+    rec.count("registration_changes_ok")
+
+
 def multi_daemon_case(fxs, make_fx, mode, shape, creator, rec, r, sername):
     """'one instance per DAEMON': the same class registered in several daemons of one process (side by side, and one started after another
     was shut down); every call returns (instance serial, connection serial)"""
@@ -477,6 +522,8 @@ def run_shard(shard, rec):
             for shape in SHAPES:
                 for creator in ("none", "ok", "subclass"):
                     multi_daemon_case([fx, fx2], make_fx, mode, shape, creator, rec, r, r.choice(fixture.SERIALIZERS))
+                    if mode == "single":
+                        registration_change_case(fx, shape, creator, rec, r, r.choice(fixture.SERIALIZERS))
             for shape in SHAPES:
                 for creator in CREATORS:
                     for race in ((True, False) if mode == "single" else (False,)):
@@ -495,6 +542,13 @@ def run_shard(shard, rec):
 def replay(payload, rec):
     P = fixture.pyro()
     r = gen.rng(0, "replay")
+    if payload.get("regchange"):
+        fx = fixture.Fixture(servertype=payload["servertype"], COMMTIMEOUT=0.0, THREADPOOL_SIZE=40, THREADPOOL_SIZE_MIN=2)
+        try:
+            registration_change_case(fx, payload["shape"], payload["creator"], rec, r, payload["serializer"])
+        finally:
+            fx.stop()
+        return
     if payload.get("sched"):
         sc, res, got, book = sched_case(P, payload["mode"], payload["shape"], payload["creator"], payload["nthreads"], payload["choices"], rec, None)
         rec.case(("replay", repr(payload)[:100]))
